@@ -10,7 +10,7 @@
  *                                         o read-only opens below the home, t stat/lstat below the home
  *   fault plan         NQV_PLAN=<prog>:<k>:<action>[;...]  at the k-th counted call (classes in
  *                      NQV_COUNT, default "m") of a process whose program name is <prog> (or *):
- *                      kill | fail=<errno> | short=<n>
+ *                      kill | fail=<errno> | short=<n> | sig=<signal number>
  *   gates              NQV_GATE=<unix socket>  calls of classes NQV_GATECLS of programs listed in
  *                      NQV_GATEPROG (comma separated, * = all) stop before executing and wait
  *                      for the controller's decision: g | k | f <errno> | s <n>
@@ -244,7 +244,7 @@ static int gate_wait(char *line, size_t n, int intr_ok)
 }
 
 /* ----- decision for one counted call --------------------------------------------------- */
-enum { ACT_GO, ACT_KILL, ACT_FAIL, ACT_SHORT };
+enum { ACT_GO, ACT_KILL, ACT_FAIL, ACT_SHORT, ACT_SIG };
 struct decision { int act; int err; long n; };
 
 static int errno_by_name(const char *s)
@@ -261,6 +261,7 @@ static void parse_action(const char *a, struct decision *d)
 {
   d->act = ACT_GO; d->err = 0; d->n = 0;
   if (!strncmp(a, "kill", 4) || a[0] == 'k') d->act = ACT_KILL;
+  else if (!strncmp(a, "sig=", 4)) { d->act = ACT_SIG; d->n = atol(a + 4); }
   else if (!strncmp(a, "fail=", 5)) { d->act = ACT_FAIL; d->err = errno_by_name(a + 5); }
   else if (a[0] == 'f' && a[1] == ' ') { d->act = ACT_FAIL; d->err = errno_by_name(a + 2); }
   else if (!strncmp(a, "short=", 6)) { d->act = ACT_SHORT; d->n = atol(a + 6); }
@@ -304,6 +305,15 @@ static void pre(char cls, struct ev *e, struct decision *d)
       r = gate_wait(line, sizeof line, 0);
       if (r == 0) parse_action(line, d); else if (r == -2) { NEED(_exit); r__exit(97); }
     }
+  }
+  if (d->act == ACT_SIG) {
+    /* a catchable signal arrives just before this call: the program's own handler (or the default
+       action) decides what happens; if the process survives, the call is made as usual */
+    struct ev k = *e;
+    ev_int(&k, "n2", ncount); ev_raw(&k, ",\"inj\":\"sig\""); ev_int(&k, "signo", d->n);
+    ev_emit(&k, gatepath && gated_prog);
+    kill(getpid(), (int) d->n);
+    d->act = ACT_GO;
   }
   if (d->act == ACT_KILL) {
     struct ev k = *e;
